@@ -339,8 +339,8 @@ def stepLine (s : St) (toks : List String) : St × String :=
     if !canDestroy s.sockh.st then (s, "bad-op") else
     doVoid s 3 (sockhDestroy s.sockh.obj h) (fun s x => { s with sockh := x }) SockH.show
   | "sockh.addctx" =>
-    if s.sockh.st ≠ 1 || s.evloop.st ≠ 1 || s.nctx ≥ 64 then (s, "bad-op") else
-    doCall { s with nctx := s.nctx + 1 } s.sockh (sockhAddCtx f s.sockh.obj h) (fun s x => { s with sockh := x }) SockH.show
+    if s.sockh.st ≠ 1 || s.evloop.st ≠ 1 then (s, "bad-op") else
+    doCall s s.sockh (sockhAddCtx f s.sockh.obj h) (fun s x => { s with sockh := x }) SockH.show
   | "evpipe.init" =>
     if !canInit s.evpipe.st then (s, "bad-op") else
     doInit s (evpipeInit f h) (fun s x => { s with evpipe := x }) Two.show
